@@ -117,9 +117,10 @@ func Build() (*Bins, error) {
 
 	if _, err := os.Stat(filepath.Join(dir, "ok")); err == nil {
 		b.loadMeta()
+		holdInUse(dir)
 		return b, nil
 	}
-	// keep at most 2 older cache entries
+	// keep at most 6 older cache entries; never remove one that a running check holds
 	ents, _ := os.ReadDir(cache)
 	type ent struct {
 		n string
@@ -135,7 +136,7 @@ func Build() (*Bins, error) {
 	}
 	sort.Slice(old, func(i, j int) bool { return old[i].t.After(old[j].t) })
 	for i, e := range old {
-		if i >= 2 {
+		if i >= 6 && e.n != sum && !inUse(filepath.Join(cache, e.n)) {
 			os.RemoveAll(filepath.Join(cache, e.n))
 		}
 	}
@@ -181,7 +182,36 @@ func Build() (*Bins, error) {
 	}
 	os.WriteFile(filepath.Join(dir, "ok"), []byte(time.Now().Format(time.RFC3339)), 0o644)
 	b.loadMeta()
+	holdInUse(dir)
 	return b, nil
+}
+
+// A process that uses a cache entry keeps a shared lock on <entry>/inuse until it exits; pruning skips
+// entries whose lock cannot be taken exclusively (checks for different trees may run concurrently).
+var inUseFiles []*os.File
+
+func holdInUse(dir string) {
+	f, err := os.OpenFile(filepath.Join(dir, "inuse"), os.O_CREATE|os.O_RDWR, 0o644)
+	if err != nil {
+		return
+	}
+	syscall.Flock(int(f.Fd()), syscall.LOCK_SH)
+	inUseFiles = append(inUseFiles, f)
+	now := time.Now()
+	os.Chtimes(dir, now, now)
+}
+
+func inUse(dir string) bool {
+	f, err := os.OpenFile(filepath.Join(dir, "inuse"), os.O_RDWR, 0o644)
+	if err != nil {
+		return false
+	}
+	defer f.Close()
+	if syscall.Flock(int(f.Fd()), syscall.LOCK_EX|syscall.LOCK_NB) != nil {
+		return true
+	}
+	syscall.Flock(int(f.Fd()), syscall.LOCK_UN)
+	return false
 }
 
 func (b *Bins) loadMeta() {
